@@ -571,6 +571,16 @@ func TestCheck(t *testing.T) {
 			Family string `json:"family"`
 		}
 		r.DecodeReplay(&fam)
+		if fam.Family == "slots-full" {
+			k, d, n := executeSlotsFull(t)
+			r.Eval(1)
+			r.Transition(n)
+			r.State(1)
+			if k != "" && k != "setup" {
+				r.Fail(k, "full session table: "+d, 1, SlotCase{Family: "slots-full"})
+			}
+			return
+		}
 		if fam.Family == "slots" {
 			var sc SlotCase
 			r.DecodeReplay(&sc)
@@ -758,6 +768,18 @@ func TestCheck(t *testing.T) {
 		r.Nontrivial(mc.Hash(sc.String()))
 		if k != "" && k != "setup" {
 			r.Fail(k, fmt.Sprintf("%s: %s", sc, d), len(sc.Toggles), sc)
+		}
+	}
+	// the full session table (one execution, on the last shard)
+	if r.Shard == r.NShards-1 && !r.OverBudget() {
+		k, d, n := executeSlotsFull(t)
+		r.Eval(1)
+		r.Transition(n)
+		r.State(mc.Hash("slots-full", k))
+		r.Nontrivial(mc.Hash("slots-full"))
+		r.Note("slots_full_sessions_accepted", n)
+		if k != "" && k != "setup" {
+			r.Fail(k, "full session table: "+d, 1, SlotCase{Family: "slots-full"})
 		}
 	}
 	// reordered delivery (scripted): spread over the shards
